@@ -161,6 +161,13 @@ func (cs *State) catchupReplay(csHeight int64) error {
 	var msg *TimedWALMessage
 	dec := WALDecoder{gr}
 
+	// Read all records of the height before replaying any of them. Replaying
+	// writes to the WAL (step changes are logged, and a replayed +2/3 of
+	// precommits commits the block and writes its #ENDHEIGHT): if the log ends
+	// in a torn or damaged record, that must be found - and repaired by OnStart -
+	// before anything is appended behind it, or the damaged record's length field
+	// swallows what is written afterwards.
+	var msgs []*TimedWALMessage
 LOOP:
 	for {
 		msg, err = dec.Decode()
@@ -173,7 +180,10 @@ LOOP:
 		case err != nil:
 			return err
 		}
+		msgs = append(msgs, msg)
+	}
 
+	for _, msg := range msgs {
 		// NOTE: since the priv key is set when the msgs are received
 		// it will attempt to eg double sign but we can just ignore it
 		// since the votes will be replayed and we'll get to the next step
